@@ -65,6 +65,14 @@ public:
         , MemoryManager* const manager = XMLPlatformUtils::fgMemoryManager
     );
 
+    /**
+      * Compares two hexBinary literals by value:
+      * the case of the digits a-f is not significant.
+      */
+    virtual int compare(const XMLCh* const, const XMLCh* const
+        ,       MemoryManager*     const manager = XMLPlatformUtils::fgMemoryManager
+        );
+
     /***
      * Support for Serialization/De-serialization
      ***/
@@ -77,6 +85,10 @@ protected:
 
     virtual XMLSize_t  getLength(const XMLCh* const content
                        , MemoryManager* const manager) const;
+
+    virtual void normalizeEnumeration(MemoryManager* const manager);
+
+    virtual void normalizeContent(XMLCh* const, MemoryManager* const manager) const;
 
 private:
     // -----------------------------------------------------------------------
